@@ -10,6 +10,7 @@ import OmbottModel.Model.RouterBuiltin
 import OmbottModel.Gen.Routerbuiltin
 import OmbottModel.Lemmas.RouterBuiltinEnv
 import OmbottModel.Lemmas.RouterBuiltinHist
+import OmbottModel.Lemmas.AppRoute
 /-!
 C01 — Route resolution equals the plain rule-by-rule semantics.
 Property theorems only; helper lemmas live in `Lemmas/Router*.lean`.
@@ -396,6 +397,52 @@ theorem filter_guard_builtin (upper : Str → Str) (ops : List Op) (hok : ∀ op
 
 end Builtin
 
+/-! ## the composed application (`Model/App.lean`): the handler event of `Ombott.__call__` -/
+
+/-- **`app_handler_kwargs`: end to end through `App.serve`, the handler event carries exactly the
+kwargs of `params_are_rule_names`.**  For every application (hooks, error handlers, handler
+programs), every registration history and every request environ: if the exchange `App.serve`
+describes (`wsgi → _handle → before hooks → to_route → Ombott.handler → route(**kwargs) → …`)
+contains a handler event, then `PATH_INFO` decoded, the event names a callback `h` registered by
+some `add` of the history under the method the dispatch selected, the program that ran is that
+callback's program on the kwargs of the event, and those kwargs are the wildcard names of the rule
+text of THAT registration zipped with the values obtained by matching its own pattern against the
+stripped request path — whatever hooks ran before, and whatever the program then does. -/
+theorem app_handler_kwargs (cfg : App.AppConfig) (ops : List Op) (hok : ∀ op ∈ ops, OpOK op)
+    (hs : NoSel cfg.fenv) (q : App.Req) (resp : App.Response)
+    (hserve : App.serve cfg (Router.run cfg.upper ops) q = .ok (some resp))
+    (c : Option App.Call) (hc : App.Event.handler c ∈ resp.events) :
+    ∃ path call, ErrorPage.utf8Decode q.rawPath = some path ∧ c = some call ∧
+      (∃ r, App.wsgiReq cfg (Router.run cfg.upper ops) q = .ok r ∧
+        r.route = .found (cfg.handlers call.handler call.kwargs)) ∧
+      ∃ cenv a p vs, Op.add cenv a ∈ ops ∧ a.handler = call.handler ∧
+        call.method ∈ a.methods.map cfg.upper ∧ parseRule cenv a.rule = .ok p ∧
+        matchRule cfg.fenv p.syms (stripSlash path) = some vs ∧
+        call.kwargs = makeParamsDict p.params vs := by
+  obtain ⟨path, h, m, kw, hd, hres, rfl, hr⟩ := App.serve_handler_event hserve c hc
+  unfold Router.handle Router.toRoute at hres
+  obtain ⟨cenv, a, p, vs, hop, hh, hm, hp, hmatch, hkw⟩ :=
+    params_are_rule_names cfg.upper ops hok cfg.fenv hs _ _ h m kw [] hres
+  rw [App.stripSlash_request_path'] at hmatch
+  exact ⟨path, ⟨h, m, kw⟩, hd, rfl, hr, cenv, a, p, vs, hop, hh, hm, hp, hmatch, hkw⟩
+
+/-- the same for every filter environment (`rex` selectors included), in the selector-aware sense
+of `handler_called_only_on_match`: no handler event without a match of the callback's own rule -/
+theorem app_handler_only_on_match (cfg : App.AppConfig) (ops : List Op) (hok : ∀ op ∈ ops, OpOK op)
+    (q : App.Req) (resp : App.Response)
+    (hserve : App.serve cfg (Router.run cfg.upper ops) q = .ok (some resp))
+    (c : Option App.Call) (hc : App.Event.handler c ∈ resp.events) :
+    ∃ path call, ErrorPage.utf8Decode q.rawPath = some path ∧ c = some call ∧
+      ∃ cenv a p vs, Op.add cenv a ∈ ops ∧ a.handler = call.handler ∧
+        call.method ∈ a.methods.map cfg.upper ∧ parseRule cenv a.rule = .ok p ∧
+        MatchSel cfg.fenv p.syms (stripSlash path) vs ∧ call.kwargs = makeParamsDict p.params vs := by
+  obtain ⟨path, h, m, kw, hd, hres, rfl, _⟩ := App.serve_handler_event hserve c hc
+  unfold Router.handle Router.toRoute at hres
+  obtain ⟨cenv, a, p, vs, hop, hh, hm, hp, hmatch, hkw, _⟩ :=
+    handler_called_only_on_match cfg.upper ops hok cfg.fenv _ _ h m kw [] hres
+  rw [App.stripSlash_request_path'] at hmatch
+  exact ⟨path, ⟨h, m, kw⟩, hd, rfl, cenv, a, p, vs, hop, hh, hm, hp, hmatch, hkw⟩
+
 /-! ## Non-vacuity: concrete instances meeting the hypotheses -/
 section NonVacuity
 
@@ -588,6 +635,31 @@ example :
   decide +kernel
 
 end BuiltinNV
+
+/-! ### the composed application -/
+
+/-- the history `nvOps` under an application with a before hook and handlers that echo nothing -/
+def nvCfg : App.AppConfig :=
+  { hooks := { before := [{ effs := [.setHeader "X-B".toList "1".toList], res := .ok }], after := [], errHandlers := [] },
+    handlers := fun _ _ => { effs := [], res := .returns (.text "ok".toList) },
+    upper := asciiUpper, fenv := nvEnv, pr := fun _ => true }
+
+def nvReq : App.Req :=
+  { id := 1, verb := "post".toList, rawPath := [47, 47, 97, 47, 49, 50],      -- `//a/12`
+    env := { fwdProto := none, urlScheme := some "http".toList, fwdHost := none, host := some "h".toList,
+             serverName := none, serverPort := none, query := none, scriptName := none,
+             joinLib := .error .valueError },
+    accept := none, fileWrapper := false }
+
+/-- hypotheses of `app_handler_kwargs` / `app_handler_only_on_match` (`nvOps_ok`, `nvEnv_noSel`):
+`post //a/12` runs the before hook, then the POST callback of `/a/<z:int>` — op 2 — with `z`
+(not `x`, the name the pattern was first registered with) bound to the converted value -/
+example :
+    (match App.serve nvCfg (Router.run nvCfg.upper nvOps) nvReq with
+     | .ok (some resp) =>
+       resp.events.take 3 ==
+         [.before 0, .routed, .handler (some ⟨2, "POST".toList, [("z".toList, .conv "int:12".toList)]⟩)]
+     | _ => false) = true := by decide +kernel
 
 end NonVacuity
 
